@@ -19,7 +19,11 @@
       `Atomic`    an abort by a text exception has performed only `Tame` operations (`atomic_walk`,
                   `processSection_atomic`);
       `Tr P Q`    Hoare triples on normal completion; `Honest s := (hadFailure ↔ a bad event was printed)`
-                  (`honest_walk`, `processSection_honest`, `sectionLoop_honest`, `processPatchM_honest`).
+                  (`honest_walk`, `processSection_honest`, `sectionLoop_honest`, `processPatchM_honest`);
+  * `writeNow` (make writable, backup, write, permission callback — the common part of the direct write and of
+    `DeferredWriter::finalize`: `writePatchedResult_direct`, `finalizeDeferred_eq`), `writeNow_shape` (its operations),
+    `ChmodLate` / `Late` (`late_walk`, `processSection_late`, `finalizeDeferred_late`, `processPatchM_late`),
+    `ensureParentDirs_keeps`.
 -/
 import PatchModel.Model.Driver
 import PatchModel.Lemmas.Apply
@@ -479,9 +483,11 @@ theorem permissionCallback_trExt (h : ∀ p m, A (.chmod p m)) (nm : Nat) (perm 
 theorem removeFileAndEmptyParents_trExt (h1 : ∀ p, A (.unlink p)) (h2 : ∀ p, A (.rmdir p)) (p : Bytes) :
     TrExt A (removeFileAndEmptyParents p) := by
   unfold removeFileAndEmptyParents; spec_walk (good_ext A)
-theorem fixPermissionsIfNeeded_trExt (h : ∀ p m, A (.chmod p m)) (o : Options) (p : Bytes) :
-    TrExt A (fixPermissionsIfNeeded o p) := by
+/-- `fix_permissions_if_needed` performs no operation at all (the `chmod` is `makeWritable`'s, right before the write) -/
+theorem fixPermissionsIfNeeded_trExt (o : Options) (p : Bytes) : TrExt A (fixPermissionsIfNeeded o p) := by
   unfold fixPermissionsIfNeeded; spec_walk (good_ext A)
+theorem makeWritable_trExt (h : ∀ p m, A (.chmod p m)) (perm : PermResult) (p : Bytes) : TrExt A (makeWritable perm p) := by
+  unfold makeWritable; spec_walk (good_ext A)
   all_goals exact opChmod_trExt h _ _
 
 end
@@ -643,14 +649,24 @@ theorem makeBackupFor_spec {R E} (g : Good R E) (o : Options) (p : Bytes)
 theorem makeBackupFor_quiet (o : Options) (p : Bytes) : Quiet (makeBackupFor o p) :=
   makeBackupFor_spec good_quiet o p (fun _ _ => QR.of_eq rfl rfl) (fun _ _ => Quiet.doOp _) (fun _ => Quiet.doOp _)
 
-theorem writePatchedResult_quiet (p : Patch) (f : Bytes) (perm : PermResult) (c : Bytes) :
-    Quiet (writePatchedResult p f perm c) := by
+theorem makeBackupFor_trExt {A : FsOp → Prop} (h1 : ∀ a b, A (.rename a b)) (h2 : ∀ a, A (.creat a)) (o : Options) (p : Bytes) :
+    TrExt A (makeBackupFor o p) :=
+  makeBackupFor_spec (good_ext A) o p (fun _ _ => ExtR.of_eq rfl) (fun _ _ => TrExt.doOp (h1 _ _)) (fun _ => TrExt.doOp (h2 _))
+
+theorem makeWritable_quiet (perm : PermResult) (p : Bytes) : Quiet (makeWritable perm p) := by
+  unfold makeWritable; spec_walk good_quiet
+
+macro_rules | `(tactic| spec_leaf $_) => `(tactic| with_reducible first
+  | exact promptForFilepath_quiet _ | exact makeBackupFor_quiet _ _ | exact makeWritable_quiet _ _)
+
+theorem writePatchedResult_quiet (o : Options) (p : Patch) (f : Bytes) (perm : PermResult) (sb : Bool) (c : Bytes) :
+    Quiet (writePatchedResult o p f perm sb c) := by
   unfold writePatchedResult; spec_walk good_quiet
 
 macro_rules | `(tactic| spec_leaf $_) => `(tactic| with_reducible first
-  | exact promptForFilepath_quiet _ | exact makeBackupFor_quiet _ _ | exact writePatchedResult_quiet _ _ _ _)
+  | exact writePatchedResult_quiet _ _ _ _ _ _)
 
-theorem finalizeDeferred_quiet : Quiet finalizeDeferred := by
+theorem finalizeDeferred_quiet (o : Options) : Quiet (finalizeDeferred o) := by
   unfold finalizeDeferred; spec_walk good_quiet
 
 /-! ### which exceptions can come out of the applier and the reject writer -/
@@ -774,8 +790,9 @@ macro_rules | `(tactic| quiet_leaf) => `(tactic| with_reducible first
   | exact writeFile_quiet _ _ | exact ensureParentDirs_quiet _ | exact permissionCallback_quiet _ _ _
   | exact removeFileAndEmptyParents_quiet _ | exact fixPermissionsIfNeeded_quiet _ _
   | exact guessFilepath_quiet _ _ | exact checkWithUser_quiet _ _
-  | exact promptForFilepath_quiet _ | exact makeBackupFor_quiet _ _ | exact writePatchedResult_quiet _ _ _ _
-  | exact finalizeDeferred_quiet
+  | exact promptForFilepath_quiet _ | exact makeBackupFor_quiet _ _ | exact writePatchedResult_quiet _ _ _ _ _ _
+  | exact makeWritable_quiet _ _
+  | exact finalizeDeferred_quiet _
   | exact Quiet.doOp _ | exact Quiet.tryOp _ _)
 
 macro_rules | `(tactic| spec_leaf $_) => `(tactic| with_reducible first
@@ -842,8 +859,9 @@ theorem promptForFilepath_trExt {A : FsOp → Prop} : ∀ n, TrExt A (promptForF
 
 /-! ### `Atomic`: an abort caused by the patch text has only performed harmless operations -/
 
-/-- operations on anonymous temporaries, and `chmod` -/
-def Tame (op : FsOp) : Prop := op.isTmp = true ∨ ∃ p m, op = FsOp.chmod p m
+/-- operations on anonymous temporaries (before the `chmod` of a read-only target was moved to `makeWritable`, a `chmod` was
+    `Tame` too) -/
+def Tame (op : FsOp) : Prop := op.isTmp = true
 
 abbrev Atomic {α} (m : DM α) : Prop := Spec (fun _ _ => True) (fun e s s' => TextErr e → ExtR Tame s s') m
 
@@ -862,9 +880,8 @@ theorem Atomic.pure (a : α) : Atomic (Pure.pure a : DM α) := Spec.pure' a (fun
 theorem Atomic.throw (e : Exn) : Atomic (throw e : DM α) := Spec.throw e (fun s _ => ExtR.refl Tame s)
 end
 
-theorem tame_tmpCreate : Tame .tmpCreate := Or.inl rfl
-theorem tame_tmpUnlink : Tame .tmpUnlink := Or.inl rfl
-theorem tame_chmod (p : Bytes) (m : Nat) : Tame (.chmod p m) := Or.inr ⟨p, m, rfl⟩
+theorem tame_tmpCreate : Tame .tmpCreate := rfl
+theorem tame_tmpUnlink : Tame .tmpUnlink := rfl
 
 /-- programs that only perform `Tame` operations -/
 syntax "tame_leaf" : tactic
@@ -877,7 +894,7 @@ macro_rules | `(tactic| tame_leaf) => `(tactic| with_reducible first
   | exact TrExt.failNow
   | exact TrExt.throw _
   | exact createTemp_trExt tame_tmpCreate tame_tmpUnlink
-  | exact fixPermissionsIfNeeded_trExt tame_chmod _ _
+  | exact fixPermissionsIfNeeded_trExt _ _
   | exact Spec.fsExists (good_ext Tame) _
   | exact Spec.fsIsRegular (good_ext Tame) _
   | exact Spec.fsGetPerms (good_ext Tame) _
@@ -1082,5 +1099,512 @@ theorem processPatchM_honest (o : Options) : Tr Honest Honest (processPatchM o) 
 /-- the exit status of `main` -/
 theorem runPatch_honest (o : Options) (s0 s : DState) (h0 : Honest s0) (h : (processPatchM o).run s0 = (.ok (), s)) :
     Honest s := (processPatchM_honest o).ok _ _ _ h h0
+
+/-! ### the write of one file (`writeNow`): `make_writable`, backup, `creat`/`write`, permission callback
+
+`writeNow` is the common part of the direct branch of `writePatchedResult` (`writePatchedResult_direct`) and of the loop
+body of `finalizeDeferred` (`finalizeDeferred_eq`).  `writeNow_shape`: the operations it performs are `W ++ B ++ C` with
+`W` the `chmod` of a read-only target (or nothing), `B` the backup (`rename` to the backup name / `creat` of an empty backup,
+or nothing), `C` the `creat` of the target followed by its `write` and the `chmod` of the permission callback.
+`ChmodLate`: every `chmod` comes after the `creat` of the same path, or directly before the backup / creation it prepares
+(or is the last operation before an I/O error); `Late m := Spec LateR LateE m`, `processSection_late`, `finalizeDeferred_late`,
+`processPatchM_late`. -/
+
+/-- the immediate write of one file -/
+def writeNow (o : Options) (out : Bytes) (perm : PermResult) (sb : Bool) (content : Bytes) (nm : Nat) : DM Unit :=
+  makeWritable perm out >>= fun _ =>
+  (if sb = true then makeBackupFor o out else pure ()) >>= fun _ =>
+  writeFile out content >>= fun _ =>
+  permissionCallback nm perm out
+
+theorem writePatchedResult_direct (o : Options) (p : Patch) (out : Bytes) (perm : PermResult) (sb : Bool) (content : Bytes)
+    (hc : (p.format == .git && p.operation != .delete) = false) :
+    writePatchedResult o p out perm sb content =
+      ((if (p.operation == .add) = true then ensureParentDirs out else pure ()) >>= fun _ =>
+        writeNow o out perm sb content p.newMode) := by
+  unfold writePatchedResult writeNow
+  simp only [hc]
+  cases sb <;> split <;> simp
+
+theorem finalizeDeferred_eq (o : Options) :
+    finalizeDeferred o = (do
+      let s ← get
+      for w in s.dWrites do
+        ensureParentDirs w.dest
+        writeNow o w.dest w.perm w.backup w.content w.newMode
+      for p in s.dRemovals do
+        if !(s.dWrites.any (·.dest == p)) then removeFileAndEmptyParents p) := by
+  unfold finalizeDeferred writeNow
+  congr; funext s; congr; funext w u
+  cases w.backup <;> simp
+
+theorem makeWritable_shape (perm : PermResult) (p : Bytes) {s s1 : DState} {r : Except Exn Unit}
+    (h : (makeWritable perm p).run s = (r, s1)) :
+    s1.cwd = s.cwd ∧ s1.backedUp = s.backedUp ∧ ∃ W, s1.trace = s.trace ++ W ∧
+      (W = [] ∨ ∃ m, W = [FsOp.chmod (absPath s p) m]) ∧ (∀ e, r = .error e → e = .systemError ∧ W = []) := by
+  unfold makeWritable at h
+  split at h
+  · split at h
+    · rw [run_opChmod] at h
+      rcases doOp_cases h with ⟨rfl, fs', _, rfl⟩ | ⟨rfl, rfl⟩
+      · exact ⟨rfl, rfl, [_], rfl, Or.inr ⟨_, rfl⟩, fun e he => by cases he⟩
+      · exact ⟨rfl, rfl, [], by simp, Or.inl rfl, fun e he => by cases he; exact ⟨rfl, rfl⟩⟩
+    · cases h; exact ⟨rfl, rfl, [], by simp, Or.inl rfl, fun e he => by cases he⟩
+  · cases h; exact ⟨rfl, rfl, [], by simp, Or.inl rfl, fun e he => by cases he⟩
+
+theorem backupStep_shape (o : Options) (sb : Bool) (p : Bytes) {s s1 : DState} {r : Except Exn Unit}
+    (h : (if sb = true then makeBackupFor o p else pure ()).run s = (r, s1)) :
+    s1.cwd = s.cwd ∧ ∃ B, s1.trace = s.trace ++ B ∧
+      (B = [] ∨ B = [FsOp.rename (absPath s p) (absPath s (backupName o p))] ∨ B = [FsOp.creat (absPath s (backupName o p))]) ∧
+      (sb = true → s.backedUp.contains (backupName o p) = false → r = .ok () → B ≠ []) ∧
+      (sb = false ∨ s.backedUp.contains (backupName o p) = true → B = []) ∧
+      (∀ e, r = .error e → e = .systemError ∧ B = []) := by
+  split at h
+  · next hsb =>
+    rw [makeBackupFor_run] at h
+    split at h
+    · next hc =>
+      cases h
+      exact ⟨rfl, [], by simp, Or.inl rfl, fun _ hn => (by rw [hc] at hn; cases hn), fun _ => rfl, fun e he => by cases he⟩
+    · next hc =>
+      have hc' : ¬ (sb = false ∨ s.backedUp.contains (backupName o p) = true) := by
+        rintro (h | h)
+        · rw [hsb] at h; cases h
+        · exact hc h
+      split at h
+      · rcases doOp_cases h with ⟨rfl, fs', _, rfl⟩ | ⟨rfl, rfl⟩
+        · exact ⟨rfl, [_], rfl, Or.inr (Or.inl rfl), fun _ _ _ => by simp, fun h => absurd h hc', fun e he => by cases he⟩
+        · exact ⟨rfl, [], by simp, Or.inl rfl, fun _ _ he => (by cases he), fun _ => rfl, fun e he => by cases he; exact ⟨rfl, rfl⟩⟩
+      · rcases doOp_cases h with ⟨rfl, fs', _, rfl⟩ | ⟨rfl, rfl⟩
+        · exact ⟨rfl, [_], rfl, Or.inr (Or.inr rfl), fun _ _ _ => by simp, fun h => absurd h hc', fun e he => by cases he⟩
+        · exact ⟨rfl, [], by simp, Or.inl rfl, fun _ _ he => (by cases he), fun _ => rfl, fun e he => by cases he; exact ⟨rfl, rfl⟩⟩
+  · next hsb =>
+    cases h
+    exact ⟨rfl, [], by simp, Or.inl rfl, fun h => absurd h hsb, fun _ => rfl, fun e he => by cases he⟩
+
+theorem writeFile_shape (p content : Bytes) {s s1 : DState} {r : Except Exn Unit}
+    (h : (writeFile p content).run s = (r, s1)) :
+    s1.cwd = s.cwd ∧ ∃ C, s1.trace = s.trace ++ C ∧
+      (C = [] ∨ ∃ C', C = FsOp.creat (absPath s p) :: C' ∧ ∀ op ∈ C', ∃ b, op = FsOp.write (absPath s p) b) ∧
+      (r = .ok () → C ≠ []) ∧ (∀ e, r = .error e → e = .systemError) := by
+  unfold writeFile at h
+  rw [run_bind, run_opCreat] at h
+  split at h
+  · next a s2 h1 =>
+    rcases doOp_cases h1 with ⟨_, fs', _, rfl⟩ | ⟨h2, _⟩
+    · rw [run_opWrite] at h
+      split at h
+      · cases h
+        exact ⟨rfl, [_], rfl, Or.inr ⟨[], rfl, by simp⟩, fun _ => by simp, fun e he => by cases he⟩
+      · rcases doOp_cases h with ⟨rfl, fs2, _, rfl⟩ | ⟨rfl, rfl⟩
+        · refine ⟨rfl, [.creat (absPath s p), .write (absPath s p) content], List.append_assoc _ _ _, Or.inr ⟨[_], rfl, ?_⟩, fun _ => by simp, fun e he => by cases he⟩
+          intro op hop
+          rw [List.mem_singleton.1 hop]
+          exact ⟨_, rfl⟩
+        · exact ⟨rfl, [_], rfl, Or.inr ⟨[], rfl, by simp⟩, fun _ => by simp, fun e he => by cases he; rfl⟩
+    · cases h2
+  · next e s2 h1 =>
+    cases h
+    rcases doOp_cases h1 with ⟨h2, _⟩ | ⟨h2, rfl⟩
+    · cases h2
+    · cases h2
+      exact ⟨rfl, [], by simp, Or.inl rfl, fun he => (by cases he), fun e he => by cases he; rfl⟩
+
+theorem permissionCallback_shape (nm : Nat) (perm : PermResult) (p : Bytes) {s s1 : DState} {r : Except Exn Unit}
+    (h : (permissionCallback nm perm p).run s = (r, s1)) :
+    s1.cwd = s.cwd ∧ ∃ C, s1.trace = s.trace ++ C ∧ (C = [] ∨ ∃ m, C = [FsOp.chmod (absPath s p) m]) ∧
+      (∀ e, r = .error e → e = .systemError) := by
+  have key : ∀ m, (opChmod p m).run s = (r, s1) → s1.cwd = s.cwd ∧ ∃ C, s1.trace = s.trace ++ C ∧
+      (C = [] ∨ ∃ m, C = [FsOp.chmod (absPath s p) m]) ∧ (∀ e, r = .error e → e = .systemError) := by
+    intro m h
+    rw [run_opChmod] at h
+    rcases doOp_cases h with ⟨rfl, fs', _, rfl⟩ | ⟨rfl, rfl⟩
+    · exact ⟨rfl, [_], rfl, Or.inr ⟨_, rfl⟩, fun e he => by cases he⟩
+    · exact ⟨rfl, [], by simp, Or.inl rfl, fun e he => by cases he; rfl⟩
+  unfold permissionCallback at h
+  split at h
+  · exact key _ h
+  · split at h
+    · exact key _ h
+    · cases h; exact ⟨rfl, [], by simp, Or.inl rfl, fun e he => by cases he⟩
+
+
+theorem writeNow_shape (o : Options) (out : Bytes) (perm : PermResult) (sb : Bool) (content : Bytes) (nm : Nat)
+    {s s' : DState} {r : Except Exn Unit} (h : (writeNow o out perm sb content nm).run s = (r, s')) :
+    s'.cwd = s.cwd ∧ ∃ W B C, s'.trace = s.trace ++ W ++ B ++ C ∧
+      (W = [] ∨ ∃ m, W = [FsOp.chmod (absPath s out) m]) ∧
+      (B = [] ∨ B = [FsOp.rename (absPath s out) (absPath s (backupName o out))] ∨
+        B = [FsOp.creat (absPath s (backupName o out))]) ∧
+      (C = [] ∨ ∃ C', C = FsOp.creat (absPath s out) :: C' ∧
+        ∀ op ∈ C', (∃ b, op = FsOp.write (absPath s out) b) ∨ ∃ m, op = FsOp.chmod (absPath s out) m) ∧
+      (sb = true → s.backedUp.contains (backupName o out) = false → B = [] → C = []) ∧
+      (sb = false ∨ s.backedUp.contains (backupName o out) = true → B = []) ∧
+      (r = .ok () → C ≠ []) ∧ (∀ e, r = .error e → e = .systemError) := by
+  unfold writeNow at h
+  rw [run_bind] at h
+  split at h
+  · next _ s1 h1 =>
+    obtain ⟨c1, b1, W, t1, hW, -⟩ := makeWritable_shape _ _ h1
+    rw [run_bind] at h
+    split at h
+    · next _ s2 h2 =>
+      obtain ⟨c2, B, t2, hB, hB1, hB2, -⟩ := backupStep_shape _ _ _ h2
+      rw [absPath_cwd c1, absPath_cwd c1] at hB
+      rw [b1] at hB1 hB2
+      rw [run_bind] at h
+      split at h
+      · next _ s3 h3 =>
+        obtain ⟨c3, C1, t3, hC1, hne, -⟩ := writeFile_shape _ _ h3
+        obtain ⟨c4, C2, t4, hC2, herr⟩ := permissionCallback_shape _ _ _ h
+        rw [absPath_cwd (c2.trans c1)] at hC1
+        rw [absPath_cwd (c3.trans (c2.trans c1))] at hC2
+        have hne := hne rfl
+        refine ⟨c4.trans (c3.trans (c2.trans c1)), W, B, C1 ++ C2, ?_, hW, hB, ?_, ?_, hB2, ?_, herr⟩
+        · rw [t4, t3, t2, t1]; simp only [List.append_assoc]
+        · rcases hC1 with h | ⟨C', rfl, hC'⟩
+          · exact absurd h hne
+          · refine Or.inr ⟨C' ++ C2, rfl, ?_⟩
+            intro op hop
+            rcases List.mem_append.1 hop with h | h
+            · exact Or.inl (hC' op h)
+            · rcases hC2 with rfl | ⟨m, rfl⟩
+              · cases h
+              · rw [List.mem_singleton.1 h]; exact Or.inr ⟨m, rfl⟩
+        · intro hsb hn hb
+          exact absurd hb (hB1 hsb hn rfl)
+        · intro _ hc
+          exact hne (List.append_eq_nil_iff.1 hc).1
+      · next e s3 h3 =>
+        cases h
+        obtain ⟨c3, C1, t3, hC1, -, herr⟩ := writeFile_shape _ _ h3
+        rw [absPath_cwd (c2.trans c1)] at hC1
+        refine ⟨c3.trans (c2.trans c1), W, B, C1, ?_, hW, hB, ?_, ?_, hB2, fun he => (by cases he), fun e he => (by cases he; exact herr _ rfl)⟩
+        · rw [t3, t2, t1]
+        · rcases hC1 with h | ⟨C', rfl, hC'⟩
+          · exact Or.inl h
+          · exact Or.inr ⟨C', rfl, fun op hop => Or.inl (hC' op hop)⟩
+        · intro hsb hn hb
+          exact absurd hb (hB1 hsb hn rfl)
+    · next e s2 h2 =>
+      cases h
+      obtain ⟨c2, B, t2, hB, -, hB2, herr⟩ := backupStep_shape _ _ _ h2
+      rw [absPath_cwd c1, absPath_cwd c1] at hB
+      rw [b1] at hB2
+      refine ⟨c2.trans c1, W, B, [], ?_, hW, hB, Or.inl rfl, fun _ _ _ => rfl, hB2, fun he => (by cases he),
+        fun e he => (by cases he; exact (herr _ rfl).1)⟩
+      rw [t2, t1]; simp
+  · next e s1 h1 =>
+    cases h
+    obtain ⟨c1, -, W, t1, hW, herr⟩ := makeWritable_shape _ _ h1
+    refine ⟨c1, W, [], [], ?_, hW, Or.inl rfl, Or.inl rfl, fun _ _ _ => rfl, fun _ => rfl, fun he => (by cases he),
+      fun e he => (by cases he; exact (herr _ rfl).1)⟩
+    rw [t1]; simp
+
+
+/-! ### `ChmodLate` -/
+
+abbrev NoChmod (op : FsOp) : Prop := ∀ p m, op ≠ FsOp.chmod p m
+
+/-- what `make_writable`'s `chmod` of `p` prepares: the backup (`rename` of `p`, or the creation of an empty backup file) or the
+    re-creation of `p` itself -/
+def isBk (p : Bytes) (op : FsOp) : Prop := (∃ b, op = FsOp.rename p b) ∨ ∃ b, op = FsOp.creat b
+
+/-- every `chmod p` among `ops` comes after a `creat p` (the permission callback after the write), or is directly followed by the
+    backup / creation it prepares, or — only if `dangling` — is the very last operation -/
+def ChmodLate (dangling : Prop) (ops : List FsOp) : Prop :=
+  ∀ i p m, ops[i]? = some (FsOp.chmod p m) →
+    (∃ j, j < i ∧ ops[j]? = some (FsOp.creat p)) ∨ (∃ op, ops[i + 1]? = some op ∧ isBk p op) ∨
+    (dangling ∧ i + 1 = ops.length)
+
+theorem ChmodLate.of_noChmod {d : Prop} {ops : List FsOp} (h : ∀ op ∈ ops, NoChmod op) : ChmodLate d ops := by
+  intro i p m hi
+  exact absurd rfl (h _ (List.mem_of_getElem? hi) p m)
+
+theorem ChmodLate.nil {d : Prop} : ChmodLate d [] := ChmodLate.of_noChmod (by simp)
+
+theorem ChmodLate.mono {d : Prop} {ops : List FsOp} (h : ChmodLate False ops) : ChmodLate d ops := by
+  intro i p m hi
+  rcases h i p m hi with x | x | ⟨f, _⟩
+  · exact .inl x
+  · exact .inr (.inl x)
+  · exact f.elim
+
+theorem ChmodLate.append {d : Prop} {a b : List FsOp} (ha : ChmodLate False a) (hb : ChmodLate d b) :
+    ChmodLate d (a ++ b) := by
+  intro i p m hi
+  by_cases hlt : i < a.length
+  · rw [List.getElem?_append_left hlt] at hi
+    rcases ha i p m hi with ⟨j, hj, e⟩ | ⟨op, e, hop⟩ | ⟨f, _⟩
+    · exact .inl ⟨j, hj, by rw [List.getElem?_append_left (by omega)]; exact e⟩
+    · have h1 : i + 1 < a.length := by
+        rcases Nat.lt_or_ge (i + 1) a.length with h | h
+        · exact h
+        · rw [List.getElem?_eq_none h] at e; cases e
+      exact .inr (.inl ⟨op, by rw [List.getElem?_append_left h1]; exact e, hop⟩)
+    · exact f.elim
+  · have hge : a.length ≤ i := by omega
+    rw [List.getElem?_append_right hge] at hi
+    rcases hb _ p m hi with ⟨j, hj, e⟩ | ⟨op, e, hop⟩ | ⟨f, hl⟩
+    · refine .inl ⟨j + a.length, by omega, ?_⟩
+      rw [List.getElem?_append_right (by omega)]
+      have : j + a.length - a.length = j := by omega
+      rw [this]; exact e
+    · refine .inr (.inl ⟨op, ?_, hop⟩)
+      rw [List.getElem?_append_right (by omega)]
+      have : i + 1 - a.length = i - a.length + 1 := by omega
+      rw [this]; exact e
+    · exact .inr (.inr ⟨f, by rw [List.length_append]; omega⟩)
+
+theorem ChmodLate.cons_chmod {d : Prop} {q : Bytes} {m : Nat} {x : FsOp} {rest : List FsOp} (hx : isBk q x)
+    (h : ChmodLate d (x :: rest)) : ChmodLate d (FsOp.chmod q m :: x :: rest) := by
+  intro i p m' hi
+  cases i with
+  | zero =>
+    simp only [List.getElem?_cons_zero, Option.some.injEq, FsOp.chmod.injEq] at hi
+    obtain ⟨rfl, rfl⟩ := hi
+    exact .inr (.inl ⟨x, rfl, hx⟩)
+  | succ n =>
+    have hi' : (x :: rest)[n]? = some (FsOp.chmod p m') := by simpa using hi
+    rcases h n p m' hi' with ⟨j, hj, e⟩ | ⟨op, e, hop⟩ | ⟨f, hl⟩
+    · exact .inl ⟨j + 1, by omega, by simpa using e⟩
+    · exact .inr (.inl ⟨op, by simpa using e, hop⟩)
+    · exact .inr (.inr ⟨f, by simp only [List.length_cons] at hl ⊢; omega⟩)
+
+theorem ChmodLate.single {q : Bytes} {m : Nat} : ChmodLate True [FsOp.chmod q m] := by
+  intro i p m' hi
+  cases i with
+  | zero => exact .inr (.inr ⟨trivial, rfl⟩)
+  | succ n => simp at hi
+
+/-- after its `creat`, a file may be written and `chmod`ed at will -/
+theorem ChmodLate.created {q : Bytes} {C' : List FsOp}
+    (h : ∀ op ∈ C', (∃ b, op = FsOp.write q b) ∨ ∃ m, op = FsOp.chmod q m) : ChmodLate False (FsOp.creat q :: C') := by
+  intro i p m hi
+  cases i with
+  | zero => simp at hi
+  | succ n =>
+    have hi' : C'[n]? = some (FsOp.chmod p m) := by simpa using hi
+    rcases h _ (List.mem_of_getElem? hi') with ⟨b, e⟩ | ⟨m', e⟩
+    · cases e
+    · cases e
+      exact .inl ⟨0, by omega, rfl⟩
+
+
+/-- the three blocks `W ++ B ++ C` of `writeNow_shape` -/
+theorem ChmodLate.of_shape {d : Prop} {q : Bytes} {W B C : List FsOp}
+    (hW : W = [] ∨ ∃ m, W = [FsOp.chmod q m])
+    (hB : B = [] ∨ ∃ x, B = [x] ∧ isBk q x)
+    (hC : C = [] ∨ ∃ C', C = FsOp.creat q :: C' ∧ ∀ op ∈ C', (∃ b, op = FsOp.write q b) ∨ ∃ m, op = FsOp.chmod q m)
+    (hd : d ∨ C ≠ []) : ChmodLate d (W ++ B ++ C) := by
+  have lB : ChmodLate False B := by
+    rcases hB with rfl | ⟨x, rfl, hx⟩
+    · exact ChmodLate.nil
+    · refine ChmodLate.of_noChmod ?_
+      intro op hop
+      rw [List.mem_singleton.1 hop]
+      rcases hx with ⟨b, rfl⟩ | ⟨b, rfl⟩ <;> exact fun _ _ => nofun
+  have lC : ChmodLate False C := by
+    rcases hC with rfl | ⟨C', rfl, h⟩
+    · exact ChmodLate.nil
+    · exact ChmodLate.created h
+  have lBC : ChmodLate False (B ++ C) := lB.append lC
+  rw [List.append_assoc]
+  rcases hW with rfl | ⟨m, rfl⟩
+  · exact lBC.mono
+  · cases hBC : B ++ C with
+    | nil =>
+      have hCn : C = [] := (List.append_eq_nil_iff.1 hBC).2
+      rcases hd with hd | hd
+      · intro i p m' hi
+        cases i with
+        | zero => exact .inr (.inr ⟨hd, rfl⟩)
+        | succ n => simp at hi
+      · exact absurd hCn hd
+    | cons x rest =>
+      rw [hBC] at lBC
+      refine (ChmodLate.cons_chmod ?_ lBC).mono
+      rcases hB with rfl | ⟨x', rfl, hx⟩
+      · rcases hC with rfl | ⟨C', rfl, _⟩
+        · cases hBC
+        · cases hBC; exact Or.inr ⟨_, rfl⟩
+      · cases hBC; exact hx
+
+def LateR (s s' : DState) : Prop := ∃ ops, s'.trace = s.trace ++ ops ∧ ChmodLate False ops
+def LateE (e : Exn) (s s' : DState) : Prop := ∃ ops, s'.trace = s.trace ++ ops ∧ ChmodLate (e = .systemError) ops
+
+theorem good_late : Good LateR LateE := by
+  refine ⟨fun s => ⟨[], by simp, ChmodLate.nil⟩, ?_, ?_⟩
+  · rintro s s1 s2 ⟨o1, e1, l1⟩ ⟨o2, e2, l2⟩
+    exact ⟨o1 ++ o2, by rw [e2, e1, List.append_assoc], l1.append l2⟩
+  · rintro e s s1 s2 ⟨o1, e1, l1⟩ ⟨o2, e2, l2⟩
+    exact ⟨o1 ++ o2, by rw [e2, e1, List.append_assoc], l1.append l2⟩
+
+abbrev Late {α} (m : DM α) : Prop := Spec LateR LateE m
+
+theorem Late.of_trExt {α} {m : DM α} (h : TrExt NoChmod m) : Late m :=
+  Spec.weaken h (fun _ _ ⟨ops, e, hn⟩ => ⟨ops, e, ChmodLate.of_noChmod hn⟩)
+    (fun _ _ _ ⟨ops, e, hn⟩ => ⟨ops, e, ChmodLate.of_noChmod hn⟩)
+
+theorem writeNow_late (o : Options) (out : Bytes) (perm : PermResult) (sb : Bool) (content : Bytes) (nm : Nat) :
+    Late (writeNow o out perm sb content nm) := by
+  have key : ∀ s s' r, (writeNow o out perm sb content nm).run s = (r, s') → ∀ d : Prop, (d ∨ r = .ok ()) →
+      ∃ ops, s'.trace = s.trace ++ ops ∧ ChmodLate d ops := by
+    intro s s' r h d hd
+    obtain ⟨-, W, B, C, t, hW, hB, hC, -, -, hok, -⟩ := writeNow_shape o out perm sb content nm h
+    refine ⟨W ++ B ++ C, by rw [t]; simp only [List.append_assoc], ChmodLate.of_shape hW ?_ hC (hd.imp id hok)⟩
+    rcases hB with h | h | h
+    · exact Or.inl h
+    · exact Or.inr ⟨_, h, Or.inl ⟨_, rfl⟩⟩
+    · exact Or.inr ⟨_, h, Or.inr ⟨_, rfl⟩⟩
+  constructor
+  · intro s a s' h
+    exact key s s' _ h False (Or.inr rfl)
+  · intro s e s' h
+    obtain ⟨-, W, B, C, -, -, -, -, -, -, -, herr⟩ := writeNow_shape o out perm sb content nm h
+    exact key s s' _ h _ (Or.inl (herr e rfl))
+
+
+theorem refuseToPatch_trExt {A : FsOp → Prop} (h1 : ∀ p, A (.mkdir p)) (h2 : ∀ p, A (.creat p)) (h3 : ∀ p b, A (.write p b))
+    (o : Options) (f : Bytes) (p : Patch) : TrExt A (refuseToPatch o f p) := by
+  have := ensureParentDirs_trExt h1
+  have := opCreat_trExt h2
+  have := opWrite_trExt h3
+  unfold refuseToPatch; spec_walk (good_ext A)
+
+theorem noChmod_mkdir (p : Bytes) : NoChmod (.mkdir p) := fun _ _ h => by cases h
+theorem noChmod_rmdir (p : Bytes) : NoChmod (.rmdir p) := fun _ _ h => by cases h
+theorem noChmod_creat (p : Bytes) : NoChmod (.creat p) := fun _ _ h => by cases h
+theorem noChmod_unlink (p : Bytes) : NoChmod (.unlink p) := fun _ _ h => by cases h
+theorem noChmod_write (p b : Bytes) : NoChmod (.write p b) := fun _ _ h => by cases h
+theorem noChmod_rename (a b : Bytes) : NoChmod (.rename a b) := fun _ _ h => by cases h
+theorem noChmod_symlink (a b : Bytes) : NoChmod (.symlink a b) := fun _ _ h => by cases h
+theorem noChmod_tmpCreate : NoChmod .tmpCreate := fun _ _ h => by cases h
+theorem noChmod_tmpUnlink : NoChmod .tmpUnlink := fun _ _ h => by cases h
+
+/-- programs that perform no `chmod` -/
+syntax "nochmod_leaf" : tactic
+macro_rules | `(tactic| nochmod_leaf) => `(tactic| with_reducible first
+  | exact Spec.get (good_ext NoChmod)
+  | exact Spec.pure (good_ext NoChmod) _
+  | exact TrExt.liftE _
+  | exact TrExt.modify _ (fun _ => rfl)
+  | exact TrExt.emit _
+  | exact TrExt.failNow
+  | exact TrExt.throw _
+  | exact TrExt.doOp (noChmod_symlink _ _)
+  | exact createTemp_trExt noChmod_tmpCreate noChmod_tmpUnlink
+  | exact fixPermissionsIfNeeded_trExt _ _
+  | exact Spec.fsExists (good_ext NoChmod) _
+  | exact Spec.fsIsRegular (good_ext NoChmod) _
+  | exact Spec.fsGetPerms (good_ext NoChmod) _
+  | exact guessFilepath_trExt _ _
+  | exact promptForFilepath_trExt _
+  | exact checkWithUser_trExt _ _
+  | exact parseBodyM_trExt _ _
+  | exact ensureParentDirs_trExt noChmod_mkdir _
+  | exact writeFile_trExt noChmod_creat noChmod_write _ _
+  | exact makeBackupFor_trExt noChmod_rename noChmod_creat _ _
+  | exact removeFileAndEmptyParents_trExt noChmod_unlink noChmod_rmdir _
+  | exact refuseToPatch_trExt noChmod_mkdir noChmod_creat noChmod_write _ _ _)
+
+syntax "late_leaf" : tactic
+macro_rules | `(tactic| late_leaf) => `(tactic| with_reducible first
+  | exact Spec.get good_late
+  | exact Spec.pure good_late _
+  | assumption
+  | apply_assumption -exfalso -symm only [*]
+  | exact writeNow_late _ _ _ _ _ _
+  | exact Late.of_trExt (by nochmod_leaf))
+
+syntax "late_step" : tactic
+syntax "late_walk" : tactic
+macro_rules | `(tactic| late_step) => `(tactic| (
+  first
+  | (extract_lets -underBinder +onlyGivenNames jp
+     first
+     | (refine Spec.cut2 jp (fun x y => ?_) (fun hjp => ?_)
+        rotate_left; focus (clear_value jp)
+        rotate_right; focus (dsimp -zeta only [jp]))
+     | (refine Spec.cut1 jp (fun x => ?_) (fun hjp => ?_)
+        rotate_left; focus (clear_value jp)
+        rotate_right; focus (dsimp -zeta only [jp]))
+     | (clear_value jp))
+  | (with_reducible refine Spec.bind good_late ?_ (fun _ => ?_))
+  | (with_reducible refine Spec.ite ?_ ?_)
+  | (with_reducible refine Spec.forIn good_late _ _ (fun _ _ => ?_) _)
+  | late_leaf
+  | split))
+macro_rules | `(tactic| late_walk) => `(tactic| repeat' late_step)
+
+theorem writePatchedResult_late (o : Options) (p : Patch) (out : Bytes) (perm : PermResult) (sb : Bool) (content : Bytes) :
+    Late (writePatchedResult o p out perm sb content) := by
+  cases hc : (p.format == .git && p.operation != .delete)
+  · rw [writePatchedResult_direct o p out perm sb content hc]
+    late_walk
+  · unfold writePatchedResult
+    simp only [hc, ↓reduceIte]
+    late_walk
+
+theorem finalizeDeferred_late (o : Options) : Late (finalizeDeferred o) := by
+  rw [finalizeDeferred_eq]
+  late_walk
+
+theorem processSection_late (o : Options) (format : Format) : Late (processSection o format) := by
+  have := writePatchedResult_late
+  unfold processSection
+  late_walk
+
+theorem sectionLoop_late (o : Options) (format : Format) : ∀ n, Late (sectionLoop o format n)
+  | 0 => by unfold sectionLoop; late_walk
+  | n + 1 => by
+    have ih := sectionLoop_late o format n
+    have hs := processSection_late o format
+    unfold sectionLoop
+    late_walk
+
+
+theorem processPatchM_late (o : Options) : Late (processPatchM o) := by
+  unfold processPatchM
+  extract_lets -underBinder +onlyGivenNames jp
+  refine Spec.cut1 jp (fun x => ?_) (fun hjp => ?_)
+  · dsimp -zeta only [jp]
+    have hl := sectionLoop_late o
+    have hf := finalizeDeferred_late o
+    late_walk
+  · clear_value jp
+    split
+    · constructor
+      · intro s a s' hr
+        rw [run_bind, run_get] at hr
+        simp only [] at hr
+        split at hr
+        · rw [run_bind, run_set] at hr
+          exact (hjp ()).ok { s with cwd := o.directory } _ _ hr
+        · rw [run_bind, run_throw] at hr; cases hr
+      · intro s e s' hr
+        rw [run_bind, run_get] at hr
+        simp only [] at hr
+        split at hr
+        · rw [run_bind, run_set] at hr
+          exact (hjp ()).err { s with cwd := o.directory } _ _ hr
+        · rw [run_bind, run_throw] at hr; cases hr
+          exact ⟨[], by simp, ChmodLate.nil⟩
+    · exact hjp ()
+
+/-- creating the parent directories changes nothing but the tree, the trace and the operation counter -/
+theorem ensureParentDirs_keeps {β : Type} (f : DState → β)
+    (hf : ∀ (s : DState) fs' t n, f { s with fs := fs', trace := t, opCount := n } = f s)
+    (p : Bytes) {s s' : DState} {r : Except Exn Unit} (h : (ensureParentDirs p).run s = (r, s')) : f s' = f s := by
+  have g : Good (fun s s' : DState => f s' = f s) (fun _ s s' => f s' = f s) :=
+    ⟨fun _ => rfl, fun h1 h2 => h2.trans h1, fun h1 h2 => h2.trans h1⟩
+  have h1 : ∀ op tol, Spec (fun s s' : DState => f s' = f s) (fun _ s s' => f s' = f s) (tryOp op tol) :=
+    fun op tol => Spec.tryOp op tol (fun s _ _ => hf s _ _ _) (fun s => hf s s.fs s.trace _) (fun s => hf s s.fs s.trace _)
+  have h2 : ∀ (α : Type) (e : Exn), Spec (fun s s' : DState => f s' = f s) (fun _ s s' => f s' = f s)
+      (throw e : DM α) := fun _ e => Spec.throw e (fun _ => rfl)
+  have key : Spec (fun s s' : DState => f s' = f s) (fun _ s s' => f s' = f s) (ensureParentDirs p) := by
+    unfold ensureParentDirs; spec_walk g
+  cases r with
+  | ok a => exact key.ok _ _ _ h
+  | error e => exact key.err _ _ _ h
 
 end PatchModel.DriverFacts
